@@ -1343,6 +1343,67 @@ def b_intersects_loop(S):
         slice_from="additions = []", slice_to="additions_df = pd.DataFrame(additions)", returns_var="additions", default_num="Nat", join="tuple")
 
 
+def b_network_init(S):
+    """`Network.__post_init__` (the second entry route to the topology): the two ValueErrors about the inputs, optional removal of z-coordinates, cropping of
+    the traces when `truncate_traces` (multi-part input allowed only when no topology is asked for), the ValueError for an empty crop, and which traces /
+    which `already_clipped` flag `assign_branches_nodes` hands to `branches_and_nodes` (checked argument by argument) -- or that given branches / nodes are used."""
+    src0 = S[NETWORK]
+    cls = find_func(ast.parse(src0), "Network")
+    abn = find_func(ast.parse(src0), "Network.assign_branches_nodes")
+    calls = [n for n in ast.walk(abn) if isinstance(n, ast.Call) and ast.unparse(n.func) == "branches_and_nodes"]
+    want = {"traces": "self.trace_gdf", "areas": "self.area_gdf", "snap_threshold": "self.snap_threshold", "already_clipped": "self.truncate_traces"}
+    if len(calls) != 1 or calls[0].args or {k.arg: ast.unparse(k.value) for k in calls[0].keywords} != want:
+        raise Untranslatable("assign_branches_nodes: call of branches_and_nodes changed")
+    guard = [n for n in abn.body if isinstance(n, ast.If)]
+    if not guard or ast.unparse(guard[0].test) != "branches is None or nodes is None":
+        raise Untranslatable("assign_branches_nodes: the guard of the computation changed")
+    subs = [
+        (r"\bself\.(\w+)", r"self_\1"),
+        (r"trace_gdf_without_z_coords = remove_z_coordinates_from_geodata\(\n\s*geodata=self_trace_gdf\n\s*\)\n\s*assert isinstance\(trace_gdf_without_z_coords, gpd\.GeoDataFrame\)\n\s*self_trace_gdf = trace_gdf_without_z_coords\n",
+         "self_trace_gdf = remove_z_coordinates_from_geodata(geodata=self_trace_gdf)\n"),
+        (r"    self_trace_data = LineData\((?:.*\n)*?    \)\n", ""),
+        (r"        self_trace_gdf\.reset_index\(inplace=True, drop=True\)\n", ""),
+        (r"        self_assign_branches_nodes\(\)\n", "        call = COMPUTED\n"),
+        (r"        self_assign_branches_nodes\(branches=self_branch_gdf, nodes=self_node_gdf\)\n", "        call = GIVEN\n"),
+        (r"    log\.info\(\n        \"Created and initialized Network instance\.\",\n(?:.*\n)*?    \)\s*$", "    return (self_trace_gdf, call)\n"),
+        (r"    empty_branches_and_nodes = ", "    call = NOCALL\n    empty_branches_and_nodes = "),
+    ]
+    txt = standalone(src0, "Network.__post_init__")
+    for pat, rep in subs:
+        txt, n = re.subn(pat, rep, txt)
+        if n < 1:
+            raise Untranslatable(f"Network.__post_init__: rewriting step did not apply: {pat[:50]}")
+    for marker in ("COMPUTED", "GIVEN", "NOCALL"):
+        if len(re.findall(r"\b" + marker + r"\b", txt)) != 1:
+            raise Untranslatable(f"Network.__post_init__: marker {marker} not exactly once")
+    CALL = "Option (Option (List G × Bool))"
+    C = {
+        "self_area_gdf.empty or self_area_gdf.geometry.iloc[0].is_empty": "(area_is_empty self_area_gdf)",
+        "self_trace_gdf.copy()": "self_trace_gdf", "self_area_gdf.copy()": "self_area_gdf", "self_branch_gdf.copy()": "self_branch_gdf", "self_node_gdf.copy()": "self_node_gdf",
+        "check_for_z_coordinates(geodata=self_trace_gdf)": "(has_z self_trace_gdf)",
+        "remove_z_coordinates_from_geodata(geodata=self_trace_gdf)": "(drop_z self_trace_gdf)",
+        "gpd.GeoDataFrame(crop_to_target_areas(self_trace_gdf, self_area_gdf, keep_column_data=True, allow_multilinestring_input=not self_determine_branches_nodes))":
+            "(crop_ self_trace_gdf self_area_gdf (!self_determine_branches_nodes))",
+        "self_trace_gdf.shape[0]": "(List.length self_trace_gdf)",
+        "self_branch_gdf.empty and self_node_gdf.empty": "(no_topology_given)",
+        "NOCALL": "none", "COMPUTED": "(some (some (self_trace_gdf, self_truncate_traces)))", "GIVEN": "(some none)",
+    }
+    T = {"self_area_gdf.empty or self_area_gdf.geometry.iloc[0].is_empty": "Bool", "self_trace_gdf.copy()": "List G", "self_area_gdf.copy()": "A", "self_branch_gdf.copy()": "Unit",
+         "self_node_gdf.copy()": "Unit", "self_branch_gdf": "Unit", "self_node_gdf": "Unit", "check_for_z_coordinates(geodata=self_trace_gdf)": "Bool", "has_z_coordinates": "Bool",
+         "remove_z_coordinates_from_geodata(geodata=self_trace_gdf)": "List G", "trace_gdf_without_z_coords": "List G",
+         "gpd.GeoDataFrame(crop_to_target_areas(self_trace_gdf, self_area_gdf, keep_column_data=True, allow_multilinestring_input=not self_determine_branches_nodes))": "List G",
+         "self_trace_gdf.shape[0]": "Nat", "self_branch_gdf.empty and self_node_gdf.empty": "Bool", "empty_branches_and_nodes": "Bool", "self_topology_determined": "Bool",
+         "NOCALL": CALL, "COMPUTED": CALL, "GIVEN": CALL, "call": CALL}
+    return translate_function(
+        txt, "__post_init__", "network_init",
+        {"self_trace_gdf": "List G", "self_area_gdf": "A", "self_truncate_traces": "Bool", "self_circular_target_area": "Bool", "self_determine_branches_nodes": "Bool",
+         "self_remove_z_coordinates_from_inputs": "Bool", "self_branch_gdf": "Unit", "self_node_gdf": "Unit"},
+        f"List G × {CALL}", C, types=T, raises=True,
+        extra_params=[("{G}", "Type"), ("{A}", "Type"), ("area_is_empty", "A → Bool"), ("has_z", "List G → Bool"), ("drop_z", "List G → List G"), ("crop_", "List G → A → Bool → List G"),
+                      ("no_topology_given", "Bool")],
+        slice_from="self_topology_determined = False", default_num="Nat", join="tuple")
+
+
 def b_determine_intersect(S):
     """`determine_intersect`: which ordered pair of sets an X/Y node between two sets is recorded under, or ValueError"""
     fn = find_func(ast.parse(S[REL]), "determine_intersect")
@@ -1982,6 +2043,7 @@ ITEMS: List[Item] = [
     Item("SnapInsert", BAN, ["C06"], b_snap_insert),
     Item("InsertPoint", BAN, ["C06", "C04", "C01"], b_insert_point),
     Item("Dedupe", BAN, ["C04", "C01"], b_dedupe),
+    Item("NetworkInit", NETWORK, ["C14"], b_network_init),
     Item("BranchesAndNodes", BAN, ["C01", "C14", "C04", "C03"], b_branches_and_nodes),
     Item("SimpleSnap", BAN, ["C06", "C01"], b_simple_snap),
     Item("SnapStage", BAN, ["C06", "C01"], b_snap_stage, deps=["SnapInsert"]),
